@@ -14,12 +14,13 @@ def run(ctx, rep):
                    "qualified names re-joined with '.', recovered members dropped by flatten only, CommaSeparated keeps order, wrappers forward their symbol")
     rep.rule("A10.ii", "trivia: the skipped patterns accept exactly Unicode-whitespace runs, line comments and block comments (DFA equality with independently written references)")
     rep.rule("A10.i/iii/iv", "token classes equal the reference classes, ties are resolved as in the reference, only keywords outrank identifiers (so near-keyword names such as inout2, Listing are names)")
+    rep.rule("A10.vi", "exact tokenizer comparison: with every pattern read under the regex crate's leftmost-first semantics (gramfacts lf_dfa), the class assigned to EVERY string equals the reference specification's (product of all token automata, shortest distinguishing string on failure)")
     rep.rule("B2", "non-interference of layout: no field other than ranges / doc depends on a position capture, on `input` or on `lookup`")
     rep.rule("CT", "type constructors of ast::Type record name / kind / children / ranges as given (tabulated)")
     n, stats = common_g.emit(ctx, rep, "C02", {"value", "flatten", "arity", "direction"}, "A9")
     rep.floor("A9", "wiring obligations (values)", n, 120)
     rep.floor("A9", "user-written grammar actions", stats["user_actions"], 60)
-    lexical.rules(ctx, rep, "C02", {"trivia", "classes", "priority", "keywords", "finite"})
+    lexical.rules(ctx, rep, "C02", {"trivia", "classes", "priority", "keywords", "finite", "tokenizer"})
     # ---- B2: layout non-interference
     obls, _ = wiring.analyse(ctx)
     import grammar
